@@ -17,6 +17,8 @@ REPO = '/repo'
 
 def _clean(repo):
     subprocess.check_call(['git', '-C', repo, 'checkout', '--', '.'])
+    # a seeded change may add source files: remove what `git apply` created
+    subprocess.check_call(['git', '-C', repo, 'clean', '-fdq', '--', 'src', 'tests'])
 
 
 def _dirty(repo):
